@@ -9,15 +9,15 @@ from __future__ import annotations
 
 import numpy as np
 
-from .. import gens
+from .. import forms, gens
 from ..common import Skip, brief
 
 ID = "C15"
 CASES = {"quick": 4000, "thorough": 60000}
 FLOOR = {"quick": 3600, "thorough": 55000}
 FLOOR_COUNTERS = {
-    "quick": {"all_points_inside_one_cell": 1200, "large_unit_precisions": 250, "image_shift_pairs": 3500, "half_cell_pairs": 600, "mahalanobis_calls": 3500, "triangle_triples": 3500, "tight_clouds_far_from_origin": 500, "cell_objects_edited_in_place": 3500},
-    "thorough": {"all_points_inside_one_cell": 18000, "large_unit_precisions": 4000, "image_shift_pairs": 55000, "half_cell_pairs": 9000, "mahalanobis_calls": 55000, "triangle_triples": 55000, "tight_clouds_far_from_origin": 8000, "cell_objects_edited_in_place": 55000},
+    "quick": {"all_points_inside_one_cell": 1200, "large_unit_precisions": 250, "image_shift_pairs": 3500, "half_cell_pairs": 600, "mahalanobis_calls": 3500, "triangle_triples": 3500, "tight_clouds_far_from_origin": 500, "cell_objects_edited_in_place": 3500, "mixed_layout_calls": 2500},
+    "thorough": {"all_points_inside_one_cell": 18000, "large_unit_precisions": 4000, "image_shift_pairs": 55000, "half_cell_pairs": 9000, "mahalanobis_calls": 55000, "triangle_triples": 55000, "tight_clouds_far_from_origin": 8000, "cell_objects_edited_in_place": 55000, "mixed_layout_calls": 40000},
 }
 RULE = (
     "case = point sets X, Y in 1-6 dimensions with coordinates up to +-50 cells, positive rectangular cell (anisotropy up "
@@ -72,6 +72,7 @@ def gen(rng, tier, index):
         "half": half,
         "cell_edit": float(gens.pick(rng, (1.37, 0.61, 2.0, 1.001))),
         "cell_as_list": bool(rng.random() < 0.5),
+        "layouts": [gens.pick(rng, ("C", "F", "strided", "readonly", "list")) for _ in range(2)],
     }
 
 
@@ -152,6 +153,16 @@ def run(case, j):
     Msh = np.asarray(mah(Xs, Ys, P, cell_length=cell))
     j.close("Mahalanobis unchanged by integer image shifts", Msh, Ms, 1e-8 * max(float(Ms.max()), 1e-300) * (1 + big / (cell.min() + 1e-300)) * 1e-3 + 1e-7 * max(float(Ms.max()), 1e-300) + (np.inf if case["half"] else 0.0))
     j.note("mahalanobis_calls")
+    # the same numbers in other containers, X and Y laid out independently of each other
+    lx, ly = case.get("layouts", ["C", "C"])
+    if (lx, ly) != ("C", "C"):
+        Xl, Yl = forms.present(X, lx), forms.present(Y, ly)
+        j.close("periodic distances independent of the memory layout / container of X and Y", np.asarray(j.lib("periodic distances, other containers", ped, Xl, Yl, cell_length=cell)), D, 1e-12 * (diag + big))
+        # the Mahalanobis function is documented for numpy arrays only
+        Xl, Yl = (np.asarray(Xl), np.asarray(Yl))
+        j.close("Mahalanobis distances independent of the memory layout / container of X and Y", np.asarray(mah(Xl, Yl, P, cell_length=cell)), Ms, 1e-12 * max(float(Ms.max()), 1e-300) + 1e-12 * (diag + big) * float(np.sqrt(np.abs(P).max())))
+        j.close("free-space Mahalanobis distances independent of the layout", np.asarray(mah(Xl, Yl, P[0]))[0], Mw, 1e-12 * max(float(Mw.max()), 1e-300) + relw * want)
+        j.note("mixed_layout_calls")
     # the same cell object, edited in place between calls (a box that is being rescaled): every call uses the cell
     # values it is given at that moment
     cobj = [float(c) for c in cell] if case.get("cell_as_list") else np.array(cell, copy=True)
